@@ -104,7 +104,7 @@ def source_shapes(ast: dict) -> list[str]:
 
 
 def run(run: core.Run) -> int:
-    n = 600 if run.tier == "quick" else 12000
+    n = 1500 if run.tier == "quick" else 12000
     prep = core.lean_prepare(MODULES)
     aud = core.audit(THEOREMS, MODULES) if prep["proofs_ok"] else {"obligations": len(THEOREMS), "discharged": 0, "ok": False, "theorems": {}}
     if not prep["driver_ok"]:
